@@ -32,7 +32,9 @@
    audit     every function also returns a boolean that is the conjunction of `au q ub` over all
              places where upper_bound[0] is READ to prune; it does not influence the results.
              With au = valid_b it records whether the bound was, at each of those moments, at
-             least the distance to the k-th nearest sample (see CoverTree_Proof.v). *)
+             least the distance to the k-th nearest sample (see CoverTree_Proof.v).
+   variants  `oc = true` is the code before fix F46 (copy_zero_set / copy_cover_sets prune with ONE
+             query_chi->max_dist), kept for the regression theorem; `oc = false` is the repaired code. *)
 From Coq Require Import List ZArith Bool.
 From TK Require Import Knn_Spec.
 Import ListNotations.
@@ -78,6 +80,9 @@ Definition setter (K : nat) (v : ext) : list ext := repeat v K.
 (* shell(parent_query_dist, child_parent_dist, upper_bound) *)
 Definition shell (pqd cpd : Z) (ub : ext) : bool := le_e (pqd - cpd) ub.
 
+(* the query-side slack of the copy tests: `query_chi->max_dist + query_chi->max_dist` (F46), formerly one *)
+Definition qmd (oc : bool) (qc : ctree) : Z := if oc then c_maxd qc else c_maxd qc + c_maxd qc.
+
 Definition dnode := (Z * ctree)%type.                 (* d_node: dist, node *)
 Definition centry := (nat * dnode)%type.              (* slot, d_node *)
 
@@ -85,6 +90,9 @@ Definition slot_of (e : centry) : nat := fst e.
 Definition in_slot (s : nat) (e : centry) : bool := Nat.eqb (slot_of e) s.
 
 Section Query.
+Variable oc : bool.                                   (* true = the copy radius as shipped before fix F46 (ONE query
+                                                         max_dist in copy_zero_set / copy_cover_sets); false = the
+                                                         repaired code: two, as in descend *)
 Variable d : dist.
 Variable K : nat.                                     (* internal_k *)
 Variable au : bool -> ctree -> list ext -> bool.      (* audit of one read of upper_bound[0]:
@@ -97,7 +105,7 @@ Fixpoint copy_zero_set (qc : ctree) (ub : list ext) (zero : list dnode) (ok : bo
   | [] => (ub, [], ok)
   | (edist, en) :: rest =>
       let ok1 := ok && au true qc ub in
-      let upper_dist := eadd (ub0 ub) (c_maxd qc) in
+      let upper_dist := eadd (ub0 ub) (qmd oc qc) in
       if shell edist (c_pard qc) upper_dist then
         let dq := dd d (c_p qc) (c_p en) in
         if le_e dq upper_dist then
@@ -117,7 +125,7 @@ Fixpoint copy_slot (qc : ctree) (ub : list ext) (s : nat) (cover : list centry) 
   | (es, (edist, en)) :: rest =>
       if Nat.eqb es s then
         let ok1 := ok && au true qc ub in
-        let upper_dist := eadd (eadd (ub0 ub) (c_maxd qc)) (c_maxd en) in
+        let upper_dist := eadd (eadd (ub0 ub) (qmd oc qc)) (c_maxd en) in
         if shell edist (c_pard qc) upper_dist then
           let dq := dd d (c_p qc) (c_p en) in
           if le_e dq upper_dist then
@@ -290,18 +298,14 @@ End Query.
 Definition count_within (d : dist) (pts : list Z) (q v : Z) : nat :=
   length (filter (fun y => dd d q y <=? v) pts).
 
-(* descend / final filter (copy = false): at least K samples lie within v = upper_bound[0] of the
-   query node's point.  copy_* (copy = true): for every sample q' below the query child qc at least
-   K samples lie within v + max_dist(qc) - d(qc, q') of q' (what the single max_dist in copy_zero_set
-   and copy_cover_sets needs; it is implied by the covering/separation structure of a real cover tree,
-   which is not modelled, and is therefore audited on every run). *)
+(* At every read of upper_bound[0] (descend, final filter, copy_zero_set, copy_cover_sets) the audited fact is the
+   same: at least K samples lie within v = upper_bound[0] of the query node's point.  (Before fix F46 the copy sites
+   needed a strictly stronger fact, which is false on real trees - and so was the completeness of the rows: see
+   CoverTree_Refuted.v.)  The flag `copy` only records the kind of site. *)
 Definition valid_b (d : dist) (pts : list Z) (K : nat) (copy : bool) (q : ctree) (ub : list ext) : bool :=
   match ub0 ub with
   | None => true
-  | Some v =>
-      if copy then
-        forallb (fun q' => Nat.leb K (count_within d pts q' (v + c_maxd q - dd d (c_p q) q'))) (leaf_points q)
-      else Nat.leb K (count_within d pts (c_p q) v)
+  | Some v => Nat.leb K (count_within d pts (c_p q) v)
   end.
 
 Definition no_audit (copy : bool) (q : ctree) (ub : list ext) : bool := true.
